@@ -1,6 +1,172 @@
-(* C04 - placeholder while the proofs are being written *)
-From Coq Require Import ZArith QArith List Bool.
-From PV Require Import Expr.Values Expr.Syntax Expr.Sem Expr.Eval Expr.Grammar.
-Theorem C04_par_transparent : forall g e, eval g (EPar e) = eval g e.
-Proof. reflexivity. Qed.
-Print Assumptions C04_par_transparent.
+(* C04 - Constant expressions evaluate exactly, with the Specification's precedence.  Statements only.
+
+   eval  = the mechanism of pydsdl/_expression (per-class methods, _auto_swap, element-wise sets, Python Fraction % and ** )
+   sem   = the Specification's operator tables in exact rational arithmetic (stdlib Q)
+   Derives = the Expressions section of grammar.parsimonious as a derivation relation over tokens
+   Unspec (powers with non-integer exponents, min/max over two or more sets) is outside the property's quantifier. *)
+From Coq Require Import ZArith QArith Qround List Bool.
+From PV Require Import Expr.Values Expr.Syntax Expr.Literals Expr.Sem Expr.Eval Expr.Grammar Expr.Spec
+  Expr.ProofsArith Expr.ProofsEval Expr.ProofsGrammar Expr.ProofsRejects Expr.ProofsLit Expr.ProofsSet.
+Import ListNotations.
+
+(* the dispatch incl. operand swapping computes the Specification's table - for all expression trees and environments *)
+Theorem C04_eval_exact : forall g e, eval g e = sem g e.
+Proof. exact eval_exact. Qed.
+Print Assumptions C04_eval_exact.
+
+Theorem C04_eval_exact_op : forall o l r, disp o l r = sem_bin o l r.
+Proof. exact disp_sem. Qed.
+Print Assumptions C04_eval_exact_op.
+
+(* exact rational arithmetic: Python's Fraction % is a - b*floor(a/b), Fraction ** n is the n-th power, and
+   ZeroDivisionError arises exactly for 0 ** negative *)
+Theorem C04_mod_exact : forall p q, (Qnum q <> 0)%Z -> py_mod p q == p - q * inject_Z (Qfloor (p / q)).
+Proof. exact py_mod_correct. Qed.
+Print Assumptions C04_mod_exact.
+
+Theorem C04_pow_exact : forall a n,
+  match py_pow_int a n with
+  | Some x => x == Qpower a n /\ ~ (a == 0 /\ (n < 0)%Z)
+  | None => a == 0 /\ (n < 0)%Z
+  end.
+Proof. exact py_pow_correct. Qed.
+Print Assumptions C04_pow_exact.
+
+(* exactly the operand combinations outside the table are rejected (operands that are not sets) *)
+Theorem C04_rejects : forall o a b, is_set a = false -> is_set b = false ->
+  (sem_scalar o a b = Rej <-> ~ Defined o a b).
+Proof. exact scalar_rejects. Qed.
+Print Assumptions C04_rejects.
+
+(* two sets: defined for comparison and algebra operators on equal element kinds; empty results are rejected *)
+Theorem C04_rejects_sets : forall o la lb, wf_set la -> wf_set lb ->
+  (sem_setset o la lb = Rej <->
+   is_setop o = false \/ opt_kind_eqb (elem_kind la) (elem_kind lb) = false
+   \/ (o = BBand /\ vinter la lb = []) \/ (o = BXor /\ vsymdiff la lb = [])).
+Proof. exact setset_rejects. Qed.
+Print Assumptions C04_rejects_sets.
+
+(* a set and a scalar: only arithmetic operators, applied element by element with the scalar on its own side;
+   one failing element rejects the whole *)
+Theorem C04_rejects_set_scalar : forall o l b, is_set b = false ->
+  (sem_bin o (VSet l) b = (if is_arith o then set_of (map (fun x => lift_l o b x) l) else Rej)
+   /\ sem_bin o b (VSet l) = (if is_arith o then set_of (map (fun x => lift_r o b x) l) else Rej))
+  /\ (forall rs, In Rej rs -> set_of rs = Rej).
+Proof. intros o l b H. split; [apply setscalar; assumption|exact set_of_rej_elem]. Qed.
+Print Assumptions C04_rejects_set_scalar.
+
+(* unary operators, attributes of non-sets, unknown attributes, the empty set literal, unknown identifiers,
+   heterogeneous sets *)
+Theorem C04_rejects_misc :
+  (forall o v, sem_un o v <> Rej <-> (o = UNot /\ exists b, v = VBool b) \/ (o <> UNot /\ exists q, v = VRat q))
+  /\ (forall bin n v, is_set v = false -> attr bin n v = Rej)
+  /\ (forall bin n l, text_eqb n name_min = false -> text_eqb n name_max = false -> text_eqb n name_count = false ->
+        attr bin n (VSet l) = Rej)
+  /\ (forall bin g, eval_with bin g (ESet []) = Rej)
+  /\ (forall bin n, eval_with bin [] (EIdent n) = Rej)
+  /\ (forall l, homogeneous l = false -> mkset l = Rej).
+Proof. exact misc_rejects. Qed.
+Print Assumptions C04_rejects_misc.
+
+(* the text we feed has, by the grammar's own rules, the tree that is evaluated; parentheses only group *)
+Theorem C04_precedence : forall e,
+  Derives 0 (render_min e) (parenthesize e)
+  /\ strip (parenthesize e) = strip e
+  /\ (forall g, eval g (parenthesize e) = eval g e).
+Proof.
+  intros e. split; [apply render_min_derives|]. split; [apply strip_parenthesize|]. intros g. apply eval_parenthesize.
+Qed.
+Print Assumptions C04_precedence.
+
+(* a-b-c groups left, a**b**c groups right, -a**b is -(a**b), a**-b is allowed, || and && share one level,
+   * binds tighter than +, ! applies to the whole comparison *)
+Theorem C04_precedence_probes :
+  Derives 0 [t1; TSym (SBin BSub); t2; TSym (SBin BSub); t3] (EBin BSub (EBin BSub n1 n2) n3)
+  /\ render_min (EBin BSub n1 (EBin BSub n2 n3)) = [t1; TSym (SBin BSub); TSym SLPar; t2; TSym (SBin BSub); t3; TSym SRPar]
+  /\ Derives 0 [t1; TSym (SBin BPow); t2; TSym (SBin BPow); t3] (EBin BPow n1 (EBin BPow n2 n3))
+  /\ Derives 0 [TSym (SBin BSub); t1; TSym (SBin BPow); t2] (EUn UNeg (EBin BPow n1 n2))
+  /\ Derives 0 [t1; TSym (SBin BPow); TSym (SBin BSub); t2] (EBin BPow n1 (EUn UNeg n2))
+  /\ Derives 0 [TLit (LBool true); TSym (SBin BOr); TLit (LBool false); TSym (SBin BAnd); TLit (LBool false)]
+               (EBin BAnd (EBin BOr bt bf) bf)
+  /\ Derives 0 [t1; TSym (SBin BAdd); t2; TSym (SBin BMul); t3] (EBin BAdd n1 (EBin BMul n2 n3))
+  /\ Derives 0 [TSym SBang; TLit (LBool true); TSym (SBin BEq); TLit (LBool false)] (EUn UNot (EBin BEq bt bf)).
+Proof.
+  repeat split.
+  - exact probe_sub_left. - exact probe_pow_right. - exact probe_neg_pow. - exact probe_pow_neg.
+  - exact probe_or_and_one_level. - exact probe_mul_over_add. - exact probe_not_over_cmp.
+Qed.
+Print Assumptions C04_precedence_probes.
+
+(* literals: positional value in the four bases with separators; every literal the grammar accepts has a value;
+   plain strings decode to themselves; reals are decimal fractions *)
+Theorem C04_literals :
+  (forall base l acc, digits_val base acc l = option_map (positional base acc) (digit_list base l))
+  /\ (forall text, int_wf text = true -> exists z, int_value text = Some z)
+  /\ (forall ds, int_value (48 :: 120 :: ds)%Z = digits_val 16 0 ds /\ int_value (48 :: 111 :: ds)%Z = digits_val 8 0 ds
+                 /\ int_value (48 :: 98 :: ds)%Z = digits_val 2 0 ds)
+  /\ (forall q s, is_quote q = true -> forallb (fun c => negb (c =? 92)%Z) s = true -> str_value (q :: s ++ [q]) = Some s).
+Proof.
+  split; [exact digits_positional|]. split; [exact int_wf_decodes|]. split; [|exact str_plain].
+  intros ds. destruct (int_prefixes ds) as [A [_ [B [_ [C _]]]]]. auto.
+Qed.
+Print Assumptions C04_literals.
+
+Theorem C04_literal_escapes :
+  str_value [39; 92; 110; 92; 114; 92; 116; 92; 92; 92; 39; 92; 34; 39]%Z = Some [10; 13; 9; 92; 39; 34]%Z
+  /\ str_value [34; 92; 78; 92; 82; 92; 84; 34]%Z = Some [10; 13; 9]%Z
+  /\ str_value [39; 92; 117; 48; 48; 101; 57; 39]%Z = Some [233]%Z
+  /\ str_value [39; 92; 85; 48; 48; 49; 48; 70; 70; 70; 70; 39]%Z = Some [1114111]%Z
+  /\ str_value [39; 92; 85; 48; 48; 49; 49; 48; 48; 48; 48; 39]%Z = None
+  /\ str_value [39; 92; 120; 52; 49; 39]%Z = None
+  /\ str_value [39; 92; 117; 49; 50; 39]%Z = None.
+Proof. exact str_escapes. Qed.
+Print Assumptions C04_literal_escapes.
+
+Theorem C04_literal_reals : forall text iv fv,
+  opt_val (rp_int (real_split text)) = Some iv -> opt_val (rp_frac (real_split text)) = Some fv ->
+  rp_exp (real_split text) = None ->
+  exists q, real_value text = Some q
+            /\ q == inject_Z iv + inject_Z fv / inject_Z (10 ^ ndigits (rp_frac (real_split text))).
+Proof. intros text iv fv H1 H2 H3. exact (real_value_formula text iv fv H1 H2 H3). Qed.
+Print Assumptions C04_literal_reals.
+
+(* sets: value equality is an equivalence; | & ^ are union, intersection, symmetric difference; <= is subset;
+   == is set equality; results carry no duplicates; element-wise application is the map *)
+Theorem C04_set_laws :
+  (forall v, value_eqb v v = true)
+  /\ (forall a b, value_eqb a b = value_eqb b a)
+  /\ (forall a b c, value_eqb a b = true -> value_eqb b c = true -> value_eqb a c = true)
+  /\ (forall x a b, vmem x (vunion a b) = vmem x a || vmem x b)
+  /\ (forall x a b, vmem x (vinter a b) = vmem x a && vmem x b)
+  /\ (forall x a b, vmem x (vsymdiff a b) = xorb (vmem x a) (vmem x b))
+  /\ (forall a b, vsubset a b = true <-> forall x, vmem x a = true -> vmem x b = true)
+  /\ (forall a b, value_eqb (VSet a) (VSet b) = true <-> forall x, vmem x a = vmem x b)
+  /\ (forall l, vnodup (vdedup l) = true)
+  /\ (forall o b l, lift_l o b (VSet l) = set_of (map (lift_l o b) l) /\ lift_r o b (VSet l) = set_of (map (lift_r o b) l)).
+Proof.
+  split; [exact value_eqb_refl|]. split; [exact value_eqb_sym|]. split; [exact value_eqb_trans|].
+  split; [exact vmem_union|]. split; [exact vmem_inter|]. split; [exact vmem_symdiff|]. split; [exact vsubset_spec|].
+  split; [intros a b; rewrite set_value_eqb; apply vseteq_spec|]. split; [exact vnodup_dedup|exact elementwise_is_map].
+Qed.
+Print Assumptions C04_set_laws.
+
+(* min / max of a set of rationals are the least / greatest element, independent of the element order *)
+Theorem C04_min_max : forall a qs,
+  (exists m, reduce_with (sem_bin BLt) (map VRat (a :: qs)) = Ok (VRat m) /\ In m (a :: qs) /\ forall x, In x (a :: qs) -> m <= x)
+  /\ (exists m, reduce_with (sem_bin BGt) (map VRat (a :: qs)) = Ok (VRat m) /\ In m (a :: qs) /\ forall x, In x (a :: qs) -> x <= m).
+Proof. intros a qs. split; [apply min_of_rationals|apply max_of_rationals]. Qed.
+Print Assumptions C04_min_max.
+
+(* non-vacuity: a tree with every level of the grammar evaluates, and its minimal rendering needs parentheses only
+   around the unary minus under ** *)
+Definition ex_expr : expr :=
+  EBin BOr (EBin BLt (EBin BAdd n1 (EBin BMul n2 (EBin BPow (EUn UNeg n2) n3))) (EAttr (ESet [n1; n2; n3]) name_max))
+           (EUn UNot bt).
+Example C04_nonvacuous :
+  eval [] ex_expr = Ok (VBool true)
+  /\ sem [] ex_expr = Ok (VBool true)
+  /\ Derives 0 (render_min ex_expr) (parenthesize ex_expr)
+  /\ List.length (filter (fun t => token_eqb t (TSym SLPar)) (render_min ex_expr)) = 1%nat.
+Proof.
+  split; [vm_compute; reflexivity|]. split; [vm_compute; reflexivity|]. split; [apply render_min_derives|vm_compute; reflexivity].
+Qed.
